@@ -143,6 +143,10 @@ def op_remove(cache, addr):
     cache.remove_tile(_tile(addr), dimensions=addr[3])
 
 
+def op_remove_bulk(cache, addrs):
+    cache.remove_tiles([_tile(a) for a in addrs], dimensions=addrs[0][3])
+
+
 def op_load(cache, addr):
     t = _tile(addr)
     cache.load_tile(t, dimensions=addr[3])
